@@ -29,6 +29,7 @@ structure Plan where
   stageOnError  : Bool
   agentOutFails : Bool      -- an output directive of the agent side cannot be carried out (if attempted)
   tmgrOutFails  : Bool
+  hasTmgrOut    : Bool      -- the task has output directives the client side acts on (TRANSFER)
 deriving DecidableEq, Repr
 
 structure Result where
@@ -60,7 +61,10 @@ def run (p : Plan) : Result :=
         else if staged p ∧ p.tmgrOutFails then
           { emits := [.nf 4, .nf 5, .nf 6, .nf 7, .nf 10, .nf 11, .nf 12, .nf 13, .nf 14, .failed], exitCode := code, exception := true }
         else
-          { emits := [.nf 4, .nf 5, .nf 6, .nf 7, .nf 10, .nf 11, .nf 12, .nf 13, .nf 14, targetOf e], exitCode := code, exception := exc0 })
+          -- with transfer directives the final state is advanced by `_handle_task` and again by `work`
+          { emits := [.nf 4, .nf 5, .nf 6, .nf 7, .nf 10, .nf 11, .nf 12, .nf 13, .nf 14, targetOf e]
+                       ++ (if staged p ∧ p.hasTmgrOut then [targetOf e] else []),
+            exitCode := code, exception := exc0 })
         (match e with | .exit c => some c | _ => none)
         (match e with | .exit 0 => false | .exit _ => true | _ => false)
 
